@@ -142,11 +142,13 @@ Definition g_revoke (g : store) (id : sid) : store :=
   | _ => g
   end.
 
-(* whose session an accepted end_session request ends *)
-Definition session_of (hint : option tokstr) (cid : string) : option (string * string) :=
+(* whose session an accepted end_session request ends: the user a genuine id_token_hint names,
+   else the user agent session's user if the provider's storage can tell (ua_user), for the
+   client the hint / the client_id parameter names *)
+Definition session_of (pol : tepolicy) (hint : option tokstr) (cid : string) : option (string * string) :=
   match hint with
-  | None => Some ("", cid)
-  | Some (Jwt true true _ _ sub azp) => Some (sub, azp)
+  | None => Some (ua_user pol "", cid)
+  | Some (Jwt true true _ _ sub azp) => Some (ua_user pol sub, azp)
   | Some _ => None
   end.
 
@@ -159,7 +161,7 @@ Definition gstep (cl : list client) (g : store) (o : op) (x : out) : store :=
       match rt with RT m => add_at_rt m a t g | _ => add_at a t g end
   | Revoke _ _ t _, OOk => g_revoke g (denotes t)
   | EndSession _ hint cid, ORedirect =>
-      match session_of hint cid with Some (u, c) => terminate g u c | None => g end
+      match session_of (policy g) hint cid with Some (u, c) => terminate g u c | None => g end
   | _, _ => g
   end.
 
@@ -199,7 +201,14 @@ Definition check (cl : list client) (g : store) (o : op) (x : out) : bool :=
      (own token, unknown token, garbage) *)
   | Revoke _ c t _, OOk => negb (foreign_to g (denotes t) (cred_id c))
   | Revoke _ c t _, OErr _ _ => foreign_to g (denotes t) (cred_id c) || negb (proper cl c)
-  | EndSession _ _ _, (ORedirect | OErr _ _) => true
+  (* a redirect reports a logout that happened: where the storage cannot end the session the
+     request is about, answering 302 claims an effect that did not take place *)
+  | EndSession _ hint cid, ORedirect =>
+      match session_of (policy g) hint cid with
+      | Some (_, c) => negb (logout_fails (policy g) c)
+      | None => true
+      end
+  | EndSession _ _ _, OErr _ _ => true
   (* exchange accepts only live subject / actor tokens *)
   | Exchange _ _ subj styp actor _ _ _, OExch _ _ _ _ _ _ => subj_live false g styp subj && actor_live g actor
   | Exchange _ _ _ _ _ _ _ _, OErr _ _ => true
